@@ -185,49 +185,47 @@ Proof.
 Qed.
 Print Assumptions C20_validate_one_line_per_message.
 
-(* [U] the exit status is the number of validation messages modulo 256
-   (parse failures are not counted) *)
+(* [U] validate_exit_status, full strength (code as of /repo e0b6215: parse
+   failures are counted, sys.exit(min(errors, 255))): for every list of matched
+   files, status = 0 <-> every file parsed and validated, and status = number
+   of problems (validation messages + files that failed to parse) whenever
+   that number is below 256. *)
+Theorem C20_validate_exit_status :
+  forall files, status_meets_property files (validate_status files).
+Proof. exact validate_status_meets_property. Qed.
+Print Assumptions C20_validate_exit_status.
+
+(* [U] the cap stated exactly: status = min(problems, 255) *)
 Theorem C20_validate_status_exact :
-  forall files, validate_status files = N.of_nat (total_messages files) mod 256.
+  forall files, validate_status files = N.min (N.of_nat (problems files)) 255.
 Proof. exact validate_status_exact. Qed.
 Print Assumptions C20_validate_status_exact.
 
-(* Full statement:
-     forall files, status_meets_property files (validate_status files)
-   i.e. status = 0 <-> every matched file parsed and validated, and status =
-   number of problems when < 256.  FALSE of the faithful model, twice. *)
-(* [R] (a) one unparseable file only -> status 0 *)
-Theorem C20_validate_exit_status_refuted_parse_failure :
-  exists files, validate_status files = 0 /\ all_ok files = false /\ problems files = 1%nat.
-Proof. exact validate_exit_status_refuted_parse_failure. Qed.
-Print Assumptions C20_validate_exit_status_refuted_parse_failure.
+(* [U] the two halves separately *)
+Theorem C20_validate_status_zero_iff_all_ok :
+  forall files, validate_status files = 0 <-> all_ok files = true.
+Proof. exact validate_exit_status. Qed.
+Print Assumptions C20_validate_status_zero_iff_all_ok.
 
-(* [R] (b) exactly 256 messages, no parse failure -> status 0 *)
-Theorem C20_validate_exit_status_refuted_256 :
-  exists files, no_parse_failure files = true /\ total_messages files = 256%nat /\
-                validate_status files = 0 /\ all_ok files = false.
-Proof. exact validate_exit_status_refuted_256. Qed.
-Print Assumptions C20_validate_exit_status_refuted_256.
-
-(* [U] strongest true restriction: without parse failures and with fewer than
-   256 messages the status meets the property (0 iff all fine; = problems). *)
-Theorem C20_validate_exit_status_guarded :
-  forall files, no_parse_failure files = true -> (total_messages files < 256)%nat ->
-    status_meets_property files (validate_status files).
-Proof. exact validate_status_meets_property_guarded. Qed.
-Print Assumptions C20_validate_exit_status_guarded.
-
-(* [U] the success direction needs no guard *)
-Theorem C20_validate_all_ok_status_zero :
-  forall files, all_ok files = true -> validate_status files = 0.
-Proof. exact validate_all_ok_status_zero. Qed.
-Print Assumptions C20_validate_all_ok_status_zero.
-
-(* [U] status = message count whenever that is below 256 (parse failures or not) *)
 Theorem C20_status_equals_count_when_small :
-  forall files, (total_messages files < 256)%nat -> validate_status files = N.of_nat (total_messages files).
+  forall files, (problems files < 256)%nat -> validate_status files = N.of_nat (problems files).
 Proof. exact status_equals_count_when_small. Qed.
 Print Assumptions C20_status_equals_count_when_small.
+
+(* [U] from 255 problems on the status is 255: never 0 because a count wrapped *)
+Theorem C20_validate_status_capped :
+  forall files, (255 <= problems files)%nat -> validate_status files = 255.
+Proof. exact validate_status_capped. Qed.
+Print Assumptions C20_validate_status_capped.
+
+(* The witnesses that refuted the statement before e0b6215 (status 0 then):
+   one unparseable file only, and exactly 256 messages. *)
+Example C20_unparseable_only_status_nonzero : validate_status [([117], ParseFailed)] = 1.
+Proof. exact validate_unparseable_only_status. Qed.
+
+Example C20_256_messages_status_nonzero :
+  validate_status [([98], Validated (repeat (mk_vmsg (Some 1%Z) (Some 1%Z) [109] [101]) 256))] = 255.
+Proof. exact validate_256_messages_status. Qed.
 
 (* [U] matched files: every non-directory glob result of every argument *)
 Theorem C20_get_mapfiles_spec :
@@ -256,7 +254,7 @@ Print Assumptions C20_schema_cmd.
 (* non-vacuity: a text with characters of 1, 2, 3 and 4 bytes (a, e-acute,
    U+4E2D, U+1F600) meets the hypotheses and round-trips through its 10 bytes;
    an overlong, a surrogate and a truncated sequence are rejected; a mixed
-   file list (valid, 2 messages, unparseable) gives status 2 and 5 lines. *)
+   file list (valid, 2 messages, unparseable) gives status 3 and 5 lines. *)
 Example C20_example :
   all_scalar [97; 233; 20013; 128512] = true /\ has_cr [97; 233; 20013; 128512] = false /\
   utf8_encode [97; 233; 20013; 128512] = Ok [97; 195; 169; 228; 184; 173; 240; 159; 152; 128] /\
@@ -265,7 +263,7 @@ Example C20_example :
   utf8_decode [240; 159; 152] = Err PyValueError /\
   validate_status [([97], Validated []);
                    ([98], Validated [mk_vmsg (Some 3%Z) (Some 17%Z) [109] [101]; mk_vmsg None None [109] [101]]);
-                   ([99], ParseFailed)] = 2 /\
+                   ([99], ParseFailed)] = 3 /\
   length (validate_lines [([97], Validated []);
                           ([98], Validated [mk_vmsg (Some 3%Z) (Some 17%Z) [109] [101]; mk_vmsg None None [109] [101]]);
                           ([99], ParseFailed)]) = 5%nat.
